@@ -342,7 +342,7 @@ impl<'c, KD: Kind, const N: usize> MapEng<'c, KD, N> {
         let mut guard = 0;
         while self.slots[w].as_ref().unwrap().model.len() < N && guard < N + 2 {
             let model = &self.slots[w].as_ref().unwrap().model;
-            let k = (0..KD::MAX_UNIV.min(250)).map(|i| (i + a % self.univ) % KD::MAX_UNIV.min(250)).find(|r| !model.contains_key(r));
+            let k = (0..KD::MAX_UNIV.min(250) as u16).map(|i| ((i + (a % self.univ) as u16) % KD::MAX_UNIV.min(250) as u16) as u8).find(|r| !model.contains_key(r));
             let Some(k) = k else { break };
             let v = self.newval(guard as u8);
             self.op_insert_k(w, OP_INSERT, k, v);
@@ -355,7 +355,7 @@ impl<'c, KD: Kind, const N: usize> MapEng<'c, KD, N> {
         if model.len() != N {
             return;
         }
-        let absent = (0..KD::MAX_UNIV.min(250)).map(|i| (i + b) % KD::MAX_UNIV.min(250)).find(|r| !model.contains_key(r));
+        let absent = (0..KD::MAX_UNIV.min(250) as u16).map(|i| ((i + b as u16) % KD::MAX_UNIV.min(250) as u16) as u8).find(|r| !model.contains_key(r));
         self.cx.bump(S::overflow_probes);
         if had_removal || N == 0 {
             self.cx.bump(S::overflow_probes_after_removal);
